@@ -220,6 +220,15 @@ def rand_section(R, lang, allow_default, p=0.5):
     if R.random() < 0.25:
         # list-valued keys: lists are replaced as a whole by a later source; nobody may grow or share them
         m["reserved_identifiers"] = R.choice([["payloadq"], ["payloadq", "otherq"], []])
+    if lang == "cpp" and R.random() < 0.3:
+        # keys inside the built-in tables that themselves hold tables (the std shorthand groups, the comment styles): a deep union
+        # reaches them, and nothing a builder merges there may show up in another builder's or an earlier context's configuration
+        if R.random() < 0.5:
+            m["defaults"] = {R.choice(["c++17-pmr", "cetl++14-17"]): R.choice([
+                {"allocator_type": "verifq::pool_allocator", "allocator_include": '"verifq/pool.hpp"'}, {"variable_array_type_constructor_args": "{MAX_SIZE}U"},
+                {"allocator_is_default_constructible": R.choice([True, False])}])}
+        else:
+            m["comment_styles"] = {R.choice(["cpp-doxygen", "cpp", "javadoc", "c", "qt"]): {R.choice(["prefix", "comment", "suffix"]): R.choice(["//!", "//! ", " *!"])}}
     return m
 
 
